@@ -230,6 +230,14 @@ def r_superseeded_table(ck: Checker) -> None:
             want = {f"{rhs}.atom.symbol.arguments[{ri}]", f"{lhs}.atom.symbol.arguments[{li}]"}
             ck.add("via-mapping: body position i is compared with head position var_map[i]", exp == want, func, cmp_, f"compares {sorted(exp)}, expected {sorted(want)}",
                    "swapping the indices compares unrelated positions")
+            # the accept flag may only be lowered inside the loop (one mismatch at ANY position must stick)
+            gate = parent(func, ret)
+            if isinstance(gate, ast.If) and isinstance(gate.test, ast.Name):
+                flag = gate.test.id
+                inloop = [n for n in find_nodes(loop, lambda n: isinstance(n, (ast.Assign, ast.AnnAssign, ast.AugAssign))) if unparse(getattr(n, "target", None) or n.targets[0]) == flag]  # type: ignore[attr-defined]
+                ok_flag = bool(inloop) and all(isinstance(n, ast.Assign) and is_const(n.value, False) for n in inloop)
+                ck.add("via-mapping: a mismatch at any position sticks (the accept flag is only ever lowered in the loop)", ok_flag, func, gate,
+                       f"assignments to `{flag}` inside the loop: {[fmt(n) for n in inloop]}", "overwriting the flag at every position lets the LAST argument alone decide: edge(Z,Y) would be 'implied' by conn(X,Y)")
             a, b = sorted((unparse(it_loop.expand(cmp_.left, it_loop.states(cmp_)[0])), unparse(it_loop.expand(cmp_.comparators[0], it_loop.states(cmp_)[0]))))  # type: ignore[attr-defined]
             pins = Pins.of(facts={f"{a} == {b}": False})
             it2 = ck.interp(func, pins, mark_loop_body={id(loop): "entered"})
